@@ -573,10 +573,10 @@ Example C01_term_witness_compiled := ct_demo.
      term_ok    (every loop body runs in one direction: the RightToLeft bit changes only at lookarounds)   the same
      ren_ok / groups_ok2 for the slot map built from RegexTree.Caps / Captop (every Capture / Ref / BackRefCond number,
                 the popped number of a balancing group included, is a key of the capture table: the capture pre-scan
-                countCaptures and the main pass agree on which parentheses capture)        not ECMAScript (see below)
+                countCaptures and the main pass agree on which parentheses capture)        every option word, oracle tie below
    and that the root is Capture 0.  [to_node sid] is the parser's RegexNode as a Tree.node through Tree.build (the decoder
    of the harness' tree export); [sid] numbers the character sets and is arbitrary.
-   For every pattern text, option word without ECMAScript, MaintainCaptureOrder flag: if Parse succeeds with tree t and
+   For every pattern text, option word (ECMAScript and RE2 included), MaintainCaptureOrder flag: if Parse succeeds with tree t and
    capture table (caps, captop), then the interpreter run on the program the writer emits for t under the slot map of
    (caps, captop), on every text and start position, never faults, returns from some interpreter fuel on (or
    ErrBacktrackingStackLimit under a limit), and what it returns is the position and the captures of Spec.attempt on t.
@@ -585,12 +585,11 @@ Example C01_term_witness_compiled := ct_demo.
        term_fuel e root <= INF (nesting depth + loop minima + text length inside the engine's counter range);
      - oracle tie: IsWordChar is false on ! # ' ( ) - < = > ? [ \ and true on the ASCII digits 1-9;
      - the program is the written one: codes / strings = compile, Capsize = caps_size, TrackCount >= track_count;
-     - ECMAScript is excluded from the group-number part: with a shorthand class in range position ([a-\d], ECMAScript
-       only) the scan-only class scanner of the pre-scan keeps a stale "in range" flag and no lock-step argument is
-       known; C01_pattern_text_end_to_end_checked covers it with the decidable per-tree check nums_b (= the check
-       nums_okb that leg c10-parse evaluates on every tree);
+     - C01_pattern_text_end_to_end_checked: the same without the oracle tie, from the decidable per-tree check nums_b
+       (= the check nums_okb that leg c10-parse evaluates on every tree);
      - gate mask 31: the optional final rewrites of the tree are C05's subject.
-   Four genuine defects were found by these proofs and fixed first (a5090c5, 4f8aca1, 2b27550, 5afce6b; known_findings). *)
+   Five genuine defects were found by these proofs and fixed first (a5090c5, 4f8aca1, 2b27550, 5afce6b, c605b5f;
+   known_findings); the last one was the ECMAScript [a-\d] case: the pre-scan's class scanner kept a stale "in range" flag. *)
 From Verif Require Import Model.GroupMap Model.CharClass Model.Parser Proofs.GMBase Proofs.ParserOkTree Proofs.ParserOk.
 
 Theorem C01_pattern_text_end_to_end_partial :
@@ -599,7 +598,7 @@ Theorem C01_pattern_text_end_to_end_partial :
          (o : Z) (mco_flag : bool) (ptxt : list Z) (t : rnode) (caps : list Z) (captop : Z),
   (forall c, is_word_char c = true -> negb (zmem c [33; 35; 39; 40; 41; 45; 60; 61; 62; 63; 91; 92]) = true) ->
   (forall c, (49 <=? c) && (c <=? 57) = true -> is_word_char c = true) ->
-  ParseLit.useE o = false -> captop < maxint32 ->
+  captop < maxint32 ->
   parse is_word_char to_lower simple_fold participates cat_in cat_name o mco_flag ptxt = Ok (PR_Tree t caps captop) ->
   forall sid : cls -> Z, exists body,
     let root := NCapture (n_o t) 0 (-1) body in
@@ -624,7 +623,7 @@ Theorem C01_pattern_text_end_to_end_partial :
 Proof. exact pattern_text_end_to_end. Qed.
 Print Assumptions C01_pattern_text_end_to_end_partial.
 
-(* every option word, ECMAScript included, with the group numbers checked on the tree *)
+(* without the oracle tie: the group numbers checked on the tree *)
 Theorem C01_pattern_text_end_to_end_checked :
   forall (is_word_char : Z -> bool) (to_lower simple_fold : Z -> Z) (participates : Z -> bool)
          (cat_in : Z -> Z -> bool) (cat_name : list Z -> Z)
@@ -656,7 +655,7 @@ Theorem C01_parsed_tree_group_numbers_partial :
          (o : Z) (mco_flag : bool) (ptxt : list Z) (t : rnode) (caps : list Z) (captop : Z),
   (forall c, is_word_char c = true -> negb (zmem c [33; 35; 39; 40; 41; 45; 60; 61; 62; 63; 91; 92]) = true) ->
   (forall c, (49 <=? c) && (c <=? 57) = true -> is_word_char c = true) ->
-  ParseLit.useE o = false -> captop < maxint32 ->
+  captop < maxint32 ->
   parse is_word_char to_lower simple_fold participates cat_in cat_name o mco_flag ptxt = Ok (PR_Tree t caps captop) ->
   forall sid : cls -> Z, exists body,
     to_node sid t = Some (NCapture (n_o t) 0 (-1) body) /\
